@@ -22,7 +22,7 @@ ASSUMPTIONS = ["spec/iec62386_tables.py lists every command of the implemented p
                "instance maps are real DeviceInstanceTypeMapper objects resolving every (address, instance) to one type"]
 EXHAUSTIVE = {"quick": False, "thorough": True}
 REQUIRED_ANCHORS = {"all": ["decoded16", "decoded24", "decoded_event", "decoded_other_len", "order_passes",
-                            "fingerprints_compared", "generic_checked"]}
+                            "fingerprints_compared", "generic_checked", "map_history_decodes"]}
 SHARD_TIMEOUT = {"quick": 600, "thorough": 3000}
 
 QUICK_DTS = [0, 1, 4, 5, 6, 8, 2, 3, 7, 254, 255]
@@ -40,7 +40,9 @@ def plan(tier, seed):
         for p in range(8):
             sh.append({"kind": "ev", "alo": 8 * p, "ahi": 8 * (p + 1), "data": "strided"})
         sh.append({"kind": "len", "n": 40})
+        sh.append({"kind": "maphist", "n": 300})
     else:
+        sh.append({"kind": "maphist", "n": 5000})
         for dt0 in range(0, 256, 4):
             sh.append({"kind": "g16", "dts": list(range(dt0, dt0 + 4)), "lo": 0, "hi": 65536})
         for p in range(128):
@@ -239,6 +241,55 @@ def run_block(cx, res, cases, seed, tag, anchor):
     res.hit("order_passes", 3)
 
 
+def map_histories(cx, res, n, seed):
+    """The map is an input: the same mapper object is mutated between decodes (add / change / clear) and every
+    decode must equal the decode under a *fresh* mapper holding the same contents at that moment."""
+    from dali.device.helpers import DeviceInstanceTypeMapper
+    for h in range(n):
+        r = rng(seed, "C01", "maphist", h)
+        live = DeviceInstanceTypeMapper()
+        mirror = {}
+        log = []
+        addrs = [r.randrange(64) for _ in range(2)]
+        insts = [r.randrange(32) for _ in range(2)]
+        for step in range(r.randint(4, 14)):
+            c = r.random()
+            a, i = r.choice(addrs), r.choice(insts)
+            if c < 0.35:
+                t = r.choice([1, 3, 4, 0, 2, 31])
+                live.add_type(short_address=a, instance_number=i, instance_type=t)
+                mirror[(a, i)] = t
+                log.append(["add", a, i, t])
+            elif c < 0.45:
+                live.clear()
+                mirror = {}
+                log.append(["clear"])
+            else:
+                d = r.choice([0, 1, 5, 15, 16, 700, 1023])
+                v = a * 131072 + 32768 + i * 1024 + d
+                log.append(["decode", v])
+                res.evaluations += 1
+                res.distinct += 1
+                res.hit("map_history_decodes")
+                fresh = DeviceInstanceTypeMapper(dict(mirror))
+                try:
+                    r1 = cx.from_frame(cx.FF(24, v), 0, live)
+                    r2 = cx.from_frame(cx.FF(24, v), 0, fresh)
+                    same = (type(r1) is type(r2) and str(r1) == str(r2) and r1.frame == r2.frame
+                            and r1.frame.as_integer == v)
+                except Exception as e:
+                    res.violation("C01/raised/map-history", f"from_frame raised {type(e).__name__} in a map history",
+                                  {"history": log})
+                    break
+                if not same:
+                    res.violation("C01/order-dependent/map-contents",
+                                  f"frame {v:#08x}: decoding under a mapper that was modified since an earlier decode gives "
+                                  f"{r1}, a fresh mapper with the same contents gives {r2}", {"history": list(log)})
+                    break
+        if h == 0:
+            res.sample({"map_history": log})
+
+
 def run_shard(desc, tier, seed):
     res = Result()
     cx = Ctx()
@@ -303,6 +354,8 @@ def run_shard(desc, tier, seed):
                 cases.append((n, v, r.choice([0, 0, 1, 6, 8, 200]), r.choice(["none", "empty", "t1", "t3"])))
         run_block(cx, res, cases, seed, "len", "decoded_other_len")
         res.sample({"other_lengths": "1..15, 17..23, 25..64", "cases": len(cases)})
+    elif kind == "maphist":
+        map_histories(cx, res, desc["n"], seed)
     fp1 = fingerprint()
     res.hit("fingerprints_compared")
     if fp0 != fp1:
